@@ -225,6 +225,18 @@ impl Prop for C11Prop {
                 }
             }
         }
+        let long = rng.chance(1, 150);
+        if long {
+            // more than 2^16 unreported bytes before a fault: counts must not be 16-bit quantities
+            let n = rng.range(65_530, 65_545);
+            let mut g = rng.bytes(n);
+            for b in g.iter_mut() {
+                if *b == 0x01 {
+                    *b = 0x02;
+                }
+            }
+            segs.insert(0, Seg::Noise(Hx(g)));
+        }
         let len = build_stream(&segs).stream.len();
         let kinds: &[SrcFault] = if fe == Fe::RdEh {
             &[SrcFault::WouldBlock, SrcFault::WouldBlock, SrcFault::Other(0)]
@@ -235,6 +247,13 @@ impl Prop for C11Prop {
         let mut faults = gen::gen_src_faults(rng, len, nf, kinds);
         let marks = gen::marks_of(&segs);
         gen::bias_src(rng, &mut faults, &marks);
+        if long {
+            // one hard fault right behind the long run
+            let base = 65_536.min(len);
+            let at = base + rng.below(len - base + 1);
+            faults.push((at.min(len), if fe == Fe::RdEh || rng.chance(1, 2) { SrcFault::Other(1) } else { SrcFault::Eof(0) }));
+            faults.sort_by_key(|(p, _)| *p);
+        }
         let mut l = LinkScn::new("C11", "seeded", fe, BufKind::Vec);
         l.segs = segs;
         l.src = faults;
@@ -329,6 +348,9 @@ impl Prop for C11Prop {
             }
         }
         // independent pin of the counts: the byte ledger (DecodedBytes target only)
+        if stream.len() > 65_536 {
+            st.bump("probe", "stream>2^16");
+        }
         if violation.is_none() && made.iter().all(|c| c.target == Target::Bytes) {
             st.bump("probe", "ledger-checked");
             if let Err((clause, d)) = ledger(stream, &obs, l.fe != Fe::RdEh) {
